@@ -32,7 +32,7 @@ SKIP_FUNCS = {"__repr__", "__str__", "_matlab_str", "viz", "_repr_html_", "__dee
 PROPS = {json.loads(l)["id"]: json.loads(l)["anchors"]["files"] for l in (VERIF / "properties.jsonl").read_text().splitlines() if l.strip()}
 # files a property's check exercises although properties.jsonl does not list them under that property
 EXTRA_PROPS = {"C05": ["pyttb/khatrirao.py", "pyttb/export_data.py", "pyttb/import_data.py", "pyttb/gcp/optimizers.py", "pyttb/gcp/samplers.py"],
-               "C02": ["pyttb/khatrirao.py"], "C18": ["pyttb/gcp/fg_setup.py"], "C13": ["pyttb/gcp/fg_setup.py"], "C19": ["pyttb/gcp/fg_setup.py"]}
+               "C02": ["pyttb/khatrirao.py"], "C18": ["pyttb/gcp/fg_setup.py"], "C13": ["pyttb/gcp/fg_setup.py"], "C19": ["pyttb/gcp/fg_setup.py", "pyttb/export_data.py"]}
 for _p, _fs in EXTRA_PROPS.items():
     PROPS[_p] = list(PROPS[_p]) + [f for f in _fs if f not in PROPS[_p]]
 # cheap checks first
